@@ -958,6 +958,10 @@ impl Monitors {
                             format!("the retransmission timeout expired at {} us but the first unacknowledged sequence number {} was not put on the wire again", rec.t_us, fu),
                         ));
                     }
+                    if resent {
+                        // a timeout-driven retransmission (probe or not) starts a timeout recovery
+                        self.rto_recovery_until = w.ep_hi_seq;
+                    }
                     if resent && !is_probe {
                         // back-off: doubled (within 200 ms .. 60 s) unless new data was acknowledged in between
                         let want_ns = (ob.rto.as_nanos() as u64 * 2).clamp(200_000_000, 60_000_000_000);
